@@ -128,6 +128,16 @@ class C12(Prop):
                 o.append("(from_str %s)" % hx(s))
             for l in (b"", b"x", b"y" * 63, b"z" * 64, b"q" * 61, b"q" * 62, b"q" * 60):
                 o.append("(append %s)" % hx(l))
+            # the limits count octets, not characters: labels of 2- and 4-octet characters
+            e2, e4 = "\u00e9".encode(), "\U0001f600".encode()
+            for l in (e2 * 31, e2 * 30 + b"a", e4 * 15, e4 * 15 + b"abc"):
+                o.append("(append %s)" % hx(l))
+            bigm = b".".join([e2 * 31] * 4)                      # 4 x 63 = 252 wire octets (+ root)
+            for tail in (b"", b".b", b".bb", b".bbb", b"." + e2, b"." + e4 * 10):
+                o.append("(from_str %s)" % hx(bigm + tail))
+            lm = bytes([62]) + e2 * 31
+            for w in (lm * 4 + b"\x00", lm * 4 + b"\x01b\x00", lm * 4 + b"\x02bb\x00", lm * 4 + b"\x02" + e2 + b"\x00", lm * 6 + b"\x00"):
+                o.append("(decode %s)" % hx(w))
             for w in (b"\x00", b"\x01a\x00", b"\xc0\x00", b"\x01a\xc0\x00", b"\x3f" + b"a" * 63 + b"\x00", b"\x40" + b"a" * 64 + b"\x00",
                       (b"\x3f" + b"a" * 63) * 3 + b"\x3d" + b"b" * 61 + b"\x00", (b"\x3f" + b"a" * 63) * 3 + b"\x3e" + b"b" * 62 + b"\x00"):
                 o.append("(decode %s)" % hx(w))
